@@ -138,6 +138,16 @@ def edits(old):
     yield ("add-step-end/vector", "compatible", p)
     p = clone(); find(p, "Proto").steps.append(("addedOpt", Opt(N("Sample"))))
     yield ("add-step-end/optional", "compatible", p)
+    # the same three kinds of added step, typed through (new) aliases: plain, alias of an alias, generic alias, imported generic alias
+    for nm, adefs, st in [
+            ("optional-alias", [Alias("AddedMaybeNote", Opt(P("string")))], N("AddedMaybeNote")),
+            ("vector-alias", [Alias("AddedSamples", Vec(P("float32")))], N("AddedSamples")),
+            ("alias-of-alias", [Alias("AddedInner", Opt(N("Header"))), Alias("AddedOuter", N("AddedInner"))], N("AddedOuter")),
+            ("generic-alias", [Alias("AddedMaybe", Opt(TP("T")), tparams=("T",))], N("AddedMaybe", P("int32"))),
+            ("generic-vector-alias", [Alias("AddedList", Vec(TP("T")), tparams=("T",))], N("AddedList", N("Header"))),
+            ("stream-of-alias", [Alias("AddedItem", N("Header"))], Stream(N("AddedItem")))]:
+        p = clone(); p.defs += adefs; find(p, "Proto").steps.append(("addedStep", st))
+        yield ("add-step-end/%s" % nm, "compatible", p)
     for i in range(ns):
         p = clone(); del find(p, "Proto").steps[i]
         yield ("remove-step/%s" % pr0.steps[i][0], "incompatible", p)
@@ -202,6 +212,17 @@ def edits(old):
     yield ("add-union-type/Item-front", "partial", p)
     p = clone(); find(p, "Item").type = Union(N("Sample"), N("ImgF"), N("Header"), P("int32"))
     yield ("add-two-union-types/Item", "partial", p)
+    # removing a type from a union (documented as partially compatible), at the end / front / middle, for the alias and for a step
+    for where, keep in (("end", (0, 1)), ("front", (1, 2)), ("middle", (0, 2)), ("two-from-end", (0,))):
+        o3 = clone(); find(o3, "Item").type = Union(N("Sample"), N("ImgF"), N("Header"))
+        cases = [N("Sample"), N("ImgF"), N("Header")]
+        p = clone(); find(p, "Item").type = Union(*[cases[k] for k in keep]) if len(keep) > 1 else cases[keep[0]]
+        yield ("remove-union-type/Item-%s" % where, "partial", (o3, p))
+        ui = [k for k, (sn, _) in enumerate(pr0.steps) if sn == "un"][0]
+        scases = [P("int32"), P("string"), P("bool")]
+        o4 = clone(); find(o4, "Proto").steps[ui] = ("un", Union(*scases))
+        p = clone(); find(p, "Proto").steps[ui] = ("un", Union(*[scases[k] for k in keep]) if len(keep) > 1 else scases[keep[0]])
+        yield ("remove-union-type-step/un-%s" % where, "partial", (o4, p))
     # ---- enums / flags
     for en in ["Kind", "Mode"] + [d.name for d in old.defs if d.kind == "enum" and d.name not in ("Kind", "Mode")]:
         e0 = find(old, en)
